@@ -1,6 +1,7 @@
 package flood
 
 const (
-	c12N         = 3
-	c12Announcers = 3
+	c12N              = 3
+	c12LateAnnouncers = 2
+	c12Announcers     = 3
 )
